@@ -1,14 +1,100 @@
 /-
   C10 — PSBT codec is lossless; the signing workflow is order-independent and exact.
-  (property theorems; helper lemmas in Buidl.Proofs.Psbt*)
+
+  Property theorems only (helper lemmas: Buidl.Proofs.PsbtDict, PsbtCodec, PsbtValidate, PsbtCombine,
+  PsbtFinalize).  Models: Buidl.Model.PsbtCodec / PsbtFlow with the constants of Buidl.Gen.Psbt
+  (re-extracted from /repo on every run).  The models describe buidl/psbt.py with the `fix:` patches
+  of work/C10 applied (F10a unsigned transaction in non-witness format, F10d finalize's p2sh count,
+  F10e / F10f p2sh-p2wpkh validation).
+
+  Parameters of every theorem: the transaction codec `C : TxCodec Tx` (abstract; its laws appear as
+  hypotheses where a transaction is re-parsed — they are property C04's subject), the hash functions
+  `H`, the oracles `O` (point parsing, signature checks, input verification, BIP32 derivation).
+
+  "At the map level": a PSBT value is its global / input / output maps with typed entries; the
+  well-formedness predicates (`PsbtMapWF`, `InMapWF`, `OutMapWF`, `GlobalWF`) say that every embedded
+  transaction / script is the parse of its own serialisation, keys have their BIP174 lengths, unknown
+  keys do not collide with known types, and no signed key is repeated in a script — the invariant of
+  values that came out of PSBT.parse or were built by create / update / sign / combine.
 -/
-import Buidl.Model.PsbtFlow
+import Buidl.Proofs.PsbtCodec
+import Buidl.Proofs.PsbtValidate
+import Buidl.Proofs.PsbtCombine
+import Buidl.Proofs.PsbtFinalize
 namespace Buidl.Props.C10
-open Buidl Buidl.Psbt
+open Buidl Buidl.Psbt Buidl.Script
+
+/-! ## the codec is lossless: re-serialisation is idempotent, parse succeeds on serialiser output -/
+
+/-- **Idempotence.**  `p.serialize = some b` for a well-formed PSBT ⇒ parsing `b` (followed by any
+    continuation, same explicit network) succeeds at the map level, leaves the continuation, and the
+    parsed value serialises to exactly `b`: `serialize (parse (serialize p)) = serialize p`. -/
+theorem reserialize_idempotent {Tx : Type} (H : Hashes) (C : TxCodec Tx) (O : Oracles) (n : Net) (p : Psbt Tx)
+    (t' : Tx) (wf : PsbtMapWF H C O n p t') {b : Bytes} (hb : p.serialize C = some b) (rest : Bytes) :
+    ∃ p', parseMaps H C O (some n) (b ++ rest) = some (p', rest) ∧ p'.serialize C = some b :=
+  ⟨_, Buidl.Psbt.reserialize_idempotent H C O n p t' wf hb rest⟩
+
+/-- the parsed value is the normal form: dicts in sorted order, only the written signatures, the
+    re-parsed unsigned transaction -/
+theorem reserialize_normal_form {Tx : Type} (H : Hashes) (C : TxCodec Tx) (O : Oracles) (n : Net) (p : Psbt Tx)
+    (t' : Tx) (wf : PsbtMapWF H C O n p t') {b : Bytes} (hb : p.serialize C = some b) (rest : Bytes) :
+    parseMaps H C O (some n) (b ++ rest) = some (normPsbt C n p t', rest) :=
+  (Buidl.Psbt.reserialize_idempotent H C O n p t' wf hb rest).1
+
+/-- input maps: parse ∘ serialize = normal form, and the normal form serialises to the same bytes -/
+theorem in_map_roundtrip {Tx : Type} (C : TxCodec Tx) (O : Oracles) (net : Option Net) (idx : Nat) (p : PIn Tx)
+    (wf : InMapWF C O net idx p) {b : Bytes} (hb : p.serialize C = some b) (rest : Bytes) :
+    parseInMap C O net idx (b ++ rest) = some (normIn C idx p, rest) ∧ (normIn C idx p).serialize C = some b :=
+  Buidl.Psbt.in_map_roundtrip C O net idx p wf hb rest
+
+/-- output maps -/
+theorem out_map_roundtrip (O : Oracles) (net : Option Net) (p : POut) (wf : OutMapWF O net p) {b : Bytes}
+    (hb : p.serialize = some b) (rest : Bytes) :
+    parseOutMap O net (b ++ rest) = some (normOut p, rest) ∧ (normOut p).serialize = some b :=
+  Buidl.Psbt.out_map_roundtrip O net p wf hb rest
+
+/-- the global map: unsigned transaction, xpubs, unknowns -/
+theorem global_map_roundtrip {Tx : Type} (C : TxCodec Tx) (O : Oracles) (n : Net) (p : Psbt Tx) (t' : Tx)
+    (wf : GlobalWF C O n p t') {es : List (Bytes × Bytes)} (he : p.globalEntries C = some es) {enc : Bytes}
+    (henc : encodeEntries es = some enc) (rest : Bytes) :
+    kvLoop (globalStep C O) ((enc ++ Gen.psbtDelimiter ++ rest).length + 1) (enc ++ Gen.psbtDelimiter ++ rest)
+        { network := some n }
+      = some ({ tx := some t', hdPubs := sortedItems p.hdPubs, extra := sortedItems p.extra, network := some n }, rest) :=
+  kvLoop_roundtrip (global_entries_steps C O n p t' wf he) henc rest
+
+/-! ## what the first serialisation drops -/
+
+/-- a signature whose key is not a data element of the script that orders the signatures (the
+    WitnessScript, or a RedeemScript that is not p2wpkh) is not written -/
+theorem serialize_drops_foreign_sigs {Tx : Type} (C : TxCodec Tx) (idx : Nat) (p : PIn Tx) (sc : Script) (k : Bytes)
+    (hsc : p.witnessScript = some sc ∨ (p.witnessScript = none ∧ p.redeem = some sc ∧ isP2wpkh sc = false))
+    (hk : Cmd.push k ∉ sc.cmds) : dget (normIn C idx p).sigs k = none := by
+  show dget (sigsWritten p) k = none
+  unfold sigsWritten
+  rw [dget_filterMap_keys]
+  have hL : sigKeyOrder p = inScriptKeys p.sigs sc := by
+    rw [sigKeyOrder_eq]
+    rcases hsc with h | ⟨h1, h2, h3⟩
+    · rw [h]
+    · rw [h1, h2]; simp [h3]
+  have : k ∉ sigKeyOrder p := by
+    rw [hL]; intro hm; exact hk (mem_inScriptKeys.mp hm).1
+  simp [this]
+
+/-- a witness UTXO next to a non-witness UTXO is not written -/
+theorem serialize_prefers_non_witness_utxo {Tx : Type} (C : TxCodec Tx) (idx : Nat) (p : PIn Tx) (t : Tx)
+    (h : p.prevTx = some t) : (normIn C idx p).prevOut = none ∧ (normIn C idx p).prevTx = some t := by
+  simp [normIn, h]
+
+/-- every signature that is written is one of the input map's signatures, unchanged -/
+theorem serialize_keeps_written_sigs {Tx : Type} (C : TxCodec Tx) (idx : Nat) (p : PIn Tx) (e : Bytes × Bytes)
+    (h : e ∈ (normIn C idx p).sigs) : e ∈ p.sigs := mem_sigsWritten h
+
+/-! ## the unsigned transaction -/
 
 /-- the global map written by the (repaired, F10a) serialiser starts with the unsigned transaction
     in non-witness (legacy) format under key type 0 -/
-theorem global_map_carries_legacy_tx {Tx} (C : TxCodec Tx) (p : Psbt Tx) (es : List (Bytes × Bytes))
+theorem global_map_carries_legacy_tx {Tx : Type} (C : TxCodec Tx) (p : Psbt Tx) (es : List (Bytes × Bytes))
     (h : p.globalEntries C = some es) :
     ∃ tx rest, C.serializeLegacy p.tx = some tx ∧ es = ([UInt8.ofNat Gen.psbtGlobalUnsignedTx], tx) :: rest := by
   unfold Psbt.globalEntries at h
@@ -17,5 +103,234 @@ theorem global_map_carries_legacy_tx {Tx} (C : TxCodec Tx) (p : Psbt Tx) (es : L
   | some tx =>
     simp only [hs, Option.pure_def, Option.bind_eq_bind, Option.bind_some, Option.some.injEq] at h
     exact ⟨tx, _, rfl, h.symm⟩
+
+/-- PSBT.validate refuses a PSBT whose unsigned transaction has a non-empty scriptSig -/
+theorem validate_rejects_scriptsig {Tx : Type} (H : Hashes) (C : TxCodec Tx) (O : Oracles) (p : Psbt Tx) (j : Nat)
+    (txin : TxInV) (hj : (C.ins p.tx)[j]? = some txin) (hs : txin.scriptSigEmpty = false) :
+    p.validate H C O = none := by
+  cases hv : p.validate H C O with
+  | none => rfl
+  | some u =>
+    exfalso
+    obtain ⟨hl, hall⟩ := validateInsLoop_some H C O p.hdPubs 0 _ _ (validate_some_ins H C O p hv)
+    have hjl : j < (C.ins p.tx).length := by
+      rcases Nat.lt_or_ge j (C.ins p.tx).length with h | h
+      · exact h
+      · rw [List.getElem?_eq_none h] at hj; cases hj
+    obtain ⟨q, hq⟩ : ∃ q, p.ins[j]? = some q := ⟨p.ins[j]'(hl ▸ hjl), List.getElem?_eq_getElem _⟩
+    have := (hall j txin q hj hq).2.1
+    rw [hs] at this
+    cases this
+
+/-- hence PSBT.parse refuses it as well -/
+theorem parse_rejects_scriptsig {Tx : Type} (H : Hashes) (C : TxCodec Tx) (O : Oracles) (net : Option Net)
+    (s : Bytes) (p : Psbt Tx) (rest : Bytes) (hm : parseMaps H C O net s = some (p, rest)) (j : Nat) (txin : TxInV)
+    (hj : (C.ins p.tx)[j]? = some txin) (hs : txin.scriptSigEmpty = false) : Psbt.parse H C O net s = none := by
+  simp [Psbt.parse, hm, validate_rejects_scriptsig H C O p j txin hj hs]
+
+/-! ## partial signatures are checked on load -/
+
+/-- a partial signature that `check_sig_segwit` / `check_sig_legacy` (the oracle `sigOK`) refuses makes
+    PSBT.validate — hence PSBT.parse — refuse the PSBT, whenever the input carries a UTXO
+    (observation O10b: without any UTXO nothing can be checked and the signature is kept) -/
+theorem validate_rejects_bad_sig {Tx : Type} (H : Hashes) (C : TxCodec Tx) (O : Oracles) (p : Psbt Tx) (j : Nat)
+    (q : PIn Tx) (hq : p.ins[j]? = some q) (e : Bytes × Bytes) (he : e ∈ q.sigs)
+    (hutxo : q.prevOut.isSome = true ∨ q.prevTx.isSome = true)
+    (hbad : ∀ seg, O.sigOK seg j e.1 e.2 = false) : p.validate H C O = none := by
+  cases hv : p.validate H C O with
+  | none => rfl
+  | some u =>
+    exfalso
+    obtain ⟨hl, hall⟩ := validateInsLoop_some H C O p.hdPubs 0 _ _ (validate_some_ins H C O p hv)
+    have hjl : j < p.ins.length := by
+      rcases Nat.lt_or_ge j p.ins.length with h | h
+      · exact h
+      · rw [List.getElem?_eq_none h] at hq; cases hq
+    obtain ⟨txin, htx⟩ : ∃ txin, (C.ins p.tx)[j]? = some txin :=
+      ⟨(C.ins p.tx)[j]'(hl ▸ hjl), List.getElem?_eq_getElem _⟩
+    have hs := (hall j txin q htx hq).2.2.2.1
+    simp only [Nat.zero_add, sigsOK, List.all_eq_true] at hs
+    have := hs e he
+    rcases hutxo with h | h
+    · simp [h, hbad] at this
+    · by_cases h' : q.prevOut.isSome = true
+      · simp [h', hbad] at this
+      · simp [h', h, hbad] at this
+
+/-! ## combine: order independence -/
+
+/-- PSBT.combine is commutative up to serialisation for PSBTs of one transaction that agree on
+    common keys -/
+theorem combine_comm_ser {Tx : Type} (C : TxCodec Tx) {a b : Psbt Tx} {h : Bytes} (hc : PsbtCompat a b)
+    (hh : C.hash a.tx = some h) :
+    ∃ x y, combine C a b = some x ∧ combine C b a = some y ∧ x.serialize C = y.serialize C :=
+  Buidl.Psbt.combine_comm_ser C hc hh
+
+/-- associative up to serialisation -/
+theorem combine_assoc_ser {Tx : Type} (C : TxCodec Tx) {a b c : Psbt Tx} {h : Bytes}
+    (hab : PsbtCompat a b) (hac : PsbtCompat a c) (hbc : PsbtCompat b c) (hh : C.hash a.tx = some h) :
+    ∃ ab bc x y, combine C a b = some ab ∧ combine C ab c = some x ∧
+      combine C b c = some bc ∧ combine C a bc = some y ∧ x.serialize C = y.serialize C :=
+  Buidl.Psbt.combine_assoc_ser C hab hac hbc hh
+
+/-- idempotent up to serialisation -/
+theorem combine_idem_ser {Tx : Type} (C : TxCodec Tx) {a : Psbt Tx} {h : Bytes} (hw : PsbtWF a)
+    (hh : C.hash a.tx = some h) : ∃ x, combine C a a = some x ∧ x.serialize C = a.serialize C :=
+  Buidl.Psbt.combine_idem_ser C hw hh
+
+/-- **Histories.**  For any two combine trees (any shape, any order, leaves repeated or not) over the
+    same set of pairwise compatible PSBTs — e.g. the copies of one PSBT signed by different signers —
+    both evaluations succeed and the resulting bytes are equal. -/
+theorem combine_tree_bytes_independent {Tx : Type} (C : TxCodec Tx) (t1 t2 : CTree (Psbt Tx))
+    (hc : ∀ l, l ∈ t1.leaves → ∀ l', l' ∈ t1.leaves → PsbtCompat l l')
+    (hh : ∀ l, l ∈ t1.leaves → (C.hash l.tx).isSome = true)
+    (hs : ∀ l, l ∈ t1.leaves ↔ l ∈ t2.leaves) :
+    ∃ x y, t1.evalP C = some x ∧ t2.evalP C = some y ∧ x.serialize C = y.serialize C :=
+  Buidl.Psbt.combine_tree_bytes_independent C t1 t2 hc hh hs
+
+/-- per input: the signatures of a combination history are exactly the signatures of the operands -/
+theorem combine_tree_sigs {Tx : Type} (t : CTree (PIn Tx))
+    (hc : ∀ l, l ∈ t.leaves → ∀ l', l' ∈ t.leaves → InCompat l l') (k v : Bytes) :
+    dget t.foldIn.sigs k = some v ↔ ∃ l, l ∈ t.leaves ∧ dget l.sigs k = some v :=
+  foldIn_sigs_iff t hc k v
+
+/-! ## finalize: exact at the threshold, a function of the set of signatures -/
+
+/-- p2wsh / p2sh-p2wsh: finalize raises iff fewer than m of the WitnessScript's keys have signatures -/
+theorem finalize_multisig_iff {Tx : Type} {C : TxCodec Tx} {txin : TxInV} {p : PIn Tx} {spk ws : Script} {m : Int}
+    {wraw : Bytes} (hb : WitnessBranch C txin p spk ws m wraw) (hk : (scriptKeys ws.cmds).Nodup) :
+    finalizeIn true C txin p = none ↔ ((scriptSigs p.sigs ws.cmds).length : Nat) < m :=
+  finalize_witness_raises_iff true hb hk
+
+/-- … otherwise it emits `[b"", the first m signatures in script order, the WitnessScript]` -/
+theorem finalize_emits_first_m {Tx : Type} {C : TxCodec Tx} {txin : TxInV} {p : PIn Tx} {spk ws : Script} {m : Int}
+    {wraw : Bytes} (hb : WitnessBranch C txin p spk ws m wraw) (hk : (scriptKeys ws.cmds).Nodup) {q : PIn Tx}
+    (hq : finalizeIn true C txin p = some q) :
+    q.witness = some ([] :: (scriptSigs p.sigs ws.cmds).take m.toNat ++ [wraw]) ∧
+    q.scriptSig = segwitScriptSig p.redeem ∧ q.sigs = [] ∧ q.redeem = none ∧ q.witnessScript = none ∧
+    q.namedPubs = [] ∧ q.hashType = none := by
+  have := finalize_witness_emits true hb hk hq
+  exact ⟨this.1, this.2.1, this.2.2.1, this.2.2.2.1, this.2.2.2.2.1, this.2.2.2.2.2.1, this.2.2.2.2.2.2.1⟩
+
+/-- bare p2sh multisig (repaired count, F10d): raises iff fewer than m of the RedeemScript's keys have
+    signatures -/
+theorem finalize_p2sh_iff {Tx : Type} {C : TxCodec Tx} {txin : TxInV} {p : PIn Tx} {spk r : Script} {m : Int}
+    {rraw : Bytes} (hb : P2shBranch C txin p spk r m rraw) (hm : 1 ≤ m) (hk : (scriptKeys r.cmds).Nodup) :
+    finalizeIn true C txin p = none ↔ ((scriptSigs p.sigs r.cmds).length : Nat) < m :=
+  finalize_p2sh_raises_iff hb hm hk
+
+/-- … otherwise the scriptSig is `OP_0, the first m signatures in script order, the RedeemScript` -/
+theorem finalize_p2sh_emits_first_m {Tx : Type} {C : TxCodec Tx} {txin : TxInV} {p : PIn Tx} {spk r : Script}
+    {m : Int} {rraw : Bytes} (hb : P2shBranch C txin p spk r m rraw) (hm : 1 ≤ m) (hk : (scriptKeys r.cmds).Nodup)
+    {q : PIn Tx} (hq : finalizeIn true C txin p = some q) :
+    q.scriptSig = some { cmds := .op 0 :: ((scriptSigs p.sigs r.cmds).take m.toNat).map .push ++ [.push rraw] } ∧
+    q.witness = p.witness ∧ q.sigs = [] :=
+  let h := finalize_p2sh_emits hb hm hk hq
+  ⟨h.1, h.2.1, h.2.2.1⟩
+
+/-- the single-key types (p2wpkh, p2sh-p2wpkh, p2pkh) finalise iff there is exactly one signature -/
+theorem finalize_single_key_iff {Tx : Type} {C : TxCodec Tx} {txin : TxInV} {p : PIn Tx} {spk : Script}
+    (hb : P2wpkhBranch C txin p spk ∨ P2pkhBranch C txin p spk) :
+    (finalizeIn true C txin p).isSome ↔ p.sigs.length = 1 := by
+  rcases hb with hb | hb
+  · exact finalize_p2wpkh_iff true hb
+  · exact finalize_p2pkh_iff true hb
+
+/-- **A function of the set of signatures only**: two signature dicts with the same lookups (whatever
+    their insertion order, i.e. whatever the order in which signers signed or PSBTs were combined)
+    finalise identically — every script type. -/
+theorem finalize_set_only {Tx : Type} (C : TxCodec Tx) (txin : TxInV) (p : PIn Tx) (s' : Dict Bytes)
+    (hs : DNodup p.sigs) (hs' : DNodup s') (h : ∀ k, dget p.sigs k = dget s' k) :
+    finalizeIn true C txin { p with sigs := s' } = finalizeIn true C txin p :=
+  finalizeIn_sigs_ext true C txin p s' hs hs' h
+
+/-- the number of script-key signatures never exceeds the number of signatures in the dict, so the
+    code's first test `len(self.sigs) < num_sigs` is implied by the second -/
+theorem script_sigs_le_sigs (sigs : Dict Bytes) {cmds : List Cmd} (hk : (scriptKeys cmds).Nodup) :
+    (scriptSigs sigs cmds).length ≤ sigs.length := scriptSigs_length_le sigs hk
+
+/-- today's count (finding F10d, fixed by work/C10/fix-F10d.diff): with m − 1 script-key signatures
+    and at least m signatures in the dict, the unrepaired p2sh branch returns an under-signed
+    scriptSig where the repaired one raises -/
+theorem F10d_unrepaired_undersigns {Tx : Type} {C : TxCodec Tx} {txin : TxInV} {p : PIn Tx} {spk r : Script}
+    {m : Int} {rraw : Bytes} (hb : P2shBranch C txin p spk r m rraw) (hm : 1 ≤ m)
+    (hshort : (scriptSigs p.sigs r.cmds).length + 1 = m.toNat) (hlen : m ≤ (p.sigs.length : Nat)) :
+    (finalizeIn false C txin p).isSome = true ∧ finalizeIn true C txin p = none := by
+  have := F10d_general hb hm hshort hlen
+  exact ⟨by rw [this.1]; rfl, this.2⟩
+
+/-! ## the hypotheses are satisfiable -/
+
+example : ScriptCanon { cmds := [.op 82, .push [2, 1], .push [3, 1], .op 82, .op 174] } :=
+  ⟨[82, 2, 2, 1, 2, 3, 1, 82, 174], by decide, by decide, by decide⟩
+
+example : unknownInKey [0xFC, 1, 2] ∧ unknownOutKey [0x0F] ∧ unknownGlobalKey [0x20, 7] := by
+  simp [unknownInKey, unknownOutKey, unknownGlobalKey, Gen.psbtInNonWitnessUtxo, Gen.psbtInWitnessUtxo,
+    Gen.psbtInPartialSig, Gen.psbtInSighashType, Gen.psbtInRedeemScript, Gen.psbtInWitnessScript,
+    Gen.psbtInBip32Derivation, Gen.psbtInFinalScriptsig, Gen.psbtInFinalScriptwitness, Gen.psbtOutRedeemScript,
+    Gen.psbtOutWitnessScript, Gen.psbtOutBip32Derivation, Gen.psbtGlobalUnsignedTx, Gen.psbtGlobalXpub]
+
+/-- a toy transaction codec (a transaction is a byte string, serialised with a one-byte length) -/
+def toyTxCodec : TxCodec Bytes where
+  parseLegacy s := match s with
+    | [] => none
+    | n :: r => if r.length < n.toNat then none else some (r.take n.toNat, r.drop n.toNat)
+  parse s := match s with
+    | [] => none
+    | n :: r => if r.length < n.toNat then none else some (r.take n.toNat, r.drop n.toNat)
+  serialize t := if t.length < 256 then some (UInt8.ofNat t.length :: t) else none
+  serializeLegacy t := if t.length < 256 then some (UInt8.ofNat t.length :: t) else none
+  hash t := some t
+  ins _ := [{ prevTx := [], prevIndex := 0, scriptSigEmpty := true }]
+  outs _ := [{ amount := 0, spk := { cmds := [] } }]
+  finalSerialize _ _ := none
+
+def toyOracles : Oracles where
+  secOK _ := true
+  sigParseOK _ _ := true
+  sigOK _ _ _ _ := true
+  verifyOK _ _ _ := true
+  derive _ _ := none
+
+def toyHashes : Hashes := { hash160 := fun b => b.take 20, sha256 := fun b => b.take 32 }
+
+/-- a PSBT with a partial signature and unknown key–value pairs in every map … -/
+def toyPsbt : Psbt Bytes :=
+  { tx := [1, 2, 3]
+    ins := [{ sigs := [([2, 7], [9, 1])], extra := [([0xFC, 1], [5])] }]
+    outs := [{ extra := [([0x0F], [])] }]
+    extra := [([0x20], [7, 7])] }
+
+/-- … satisfies the well-formedness hypothesis of `reserialize_idempotent` (non-vacuity) -/
+example : PsbtMapWF toyHashes toyTxCodec toyOracles .testnet toyPsbt [1, 2, 3] := by
+  have hunkIn : unknownInKey [0xFC, 1] := by
+    simp [unknownInKey, Gen.psbtInNonWitnessUtxo, Gen.psbtInWitnessUtxo, Gen.psbtInPartialSig, Gen.psbtInSighashType,
+      Gen.psbtInRedeemScript, Gen.psbtInWitnessScript, Gen.psbtInBip32Derivation, Gen.psbtInFinalScriptsig,
+      Gen.psbtInFinalScriptwitness]
+  have hunkOut : unknownOutKey [0x0F] := by
+    simp [unknownOutKey, Gen.psbtOutRedeemScript, Gen.psbtOutWitnessScript, Gen.psbtOutBip32Derivation]
+  have hunkG : unknownGlobalKey [0x20] := by simp [unknownGlobalKey, Gen.psbtGlobalUnsignedTx, Gen.psbtGlobalXpub]
+  refine ⟨⟨⟨[3, 1, 2, 3], rfl, ?_, rfl⟩, by simp [DNodup, toyPsbt], by simp [toyPsbt], ⟨by simp [DNodup, toyPsbt], ?_⟩⟩,
+    rfl, rfl, ?_, ?_⟩
+  · intro rest; simp [toyTxCodec]
+  · intro e he; simp [toyPsbt] at he; subst he; exact ⟨hunkG, by simp, by simp⟩
+  · refine ⟨⟨?_, ?_, by simp [DNodup], ?_, ?_, ?_, ?_, ?_, ⟨by simp [DNodup], by simp, by simp⟩, ?_,
+      ⟨by simp [DNodup], ?_⟩⟩, ?_, trivial⟩
+    · intro t h; simp at h
+    · intro o h; simp at h
+    · have : sigKeyOrder ({ sigs := [([2, 7], [9, 1])], extra := [([0xFC, 1], [5])] } : PIn Bytes) = [[2, 7]] := by
+        simp [sigKeyOrder, sortKeys, dkeys]
+      rw [this]; simp
+    · intro e he; simp at he; subst he; simp
+    · intro r h; simp at h
+    · intro r h; simp at h
+    · intro r h; simp at h
+    · intro w h; simp at h
+    · intro e he; simp at he; subst he; exact ⟨hunkIn, by simp, by simp⟩
+    · simp [validateIn, PIn.scriptPubkey, normIn]
+  · refine ⟨⟨by intro r h; simp at h, by intro r h; simp at h, ⟨by simp [DNodup], by simp, by simp⟩,
+      ⟨by simp [DNodup], ?_⟩⟩, ?_, trivial⟩
+    · intro e he; simp at he; subst he; exact ⟨hunkOut, by simp, by simp⟩
+    · simp [validateOut, normOut, isP2pkh, isP2wpkh, pat, Gen.psbtP2pkhPattern, Gen.psbtP2wpkhPattern]
 
 end Buidl.Props.C10
